@@ -69,6 +69,15 @@ pub fn tracegen(prop: &str, seed: u64, runs: usize) -> Vec<J> {
                 Knobs { allow_random: true, p_reset: 0.12, big_consts: run % 3 == 0, max_virtuals: 1, p_x: 0.05, p_c: 0.05, ..Knobs::control_flow() },
                 Opt::default(),
             ),
+            "C20" => {
+                // one program, three layouts: every variant must behave as the one specification instance says
+                let mut v = vec![];
+                for k in 0..3u64 {
+                    v.extend(general_run(prop, run * 3 + k as usize, s, Knobs { max_virtuals: 1, p_c: 0.05, p_x: 0.05, bidir: true, ..Knobs::control_flow() },
+                        Opt { layout_seed: Some(s.wrapping_add(k * 7919)), layout: if k == 0 { Lay::Canonical } else { Lay::Random }, ..Opt::default() }));
+                }
+                v
+            }
             "C06" => binding_run(prop, run, s),
             "C07" => width_run(prop, run, s),
             "C08" => expr_run(prop, run, s),
@@ -120,6 +129,8 @@ pub struct Opt {
     /// stop after a random number of rows (every prefix of the iteration is a behaviour)
     pub random_prefix: bool,
     pub many_outputs_in_header: bool,
+    /// layout chosen independently of the program seed (layout variants of one program, C20)
+    pub layout_seed: Option<u64>,
 }
 
 impl Default for Opt {
@@ -135,6 +146,7 @@ impl Default for Opt {
             after_none: 0,
             random_prefix: false,
             many_outputs_in_header: false,
+            layout_seed: None,
         }
     }
 }
@@ -249,7 +261,13 @@ fn general_run(prop: &str, run: usize, seed: u64, knobs: Knobs, opt: Opt) -> Vec
     }
     let prog = g.program(&plan);
     let test = Test { header: plan.header.clone(), supplied: plan.supplied.clone(), prog };
-    let layout = choose_layout(opt.layout, seed, &mut g.rng);
+    let layout = match opt.layout_seed {
+        Some(ls) => {
+            let mut r2 = StdRng::seed_from_u64(ls);
+            Layout { parens: Parens::Minimal, ..choose_layout(opt.layout, ls, &mut r2) }
+        }
+        None => choose_layout(opt.layout, seed, &mut g.rng),
+    };
     let printed = print_test(&test.header, &test.prog, &layout);
     let own_write = g.rng.gen_bool(0.5);
     let max_rows = if opt.random_prefix && g.rng.gen_bool(0.5) { g.rng.gen_range(0..10) } else { opt.max_rows };
